@@ -5,7 +5,7 @@
 (* Results: "T" matched, "F" not matched, "E" the filter is rejected.      *)
 (* MatchRef (declarative MongoDB path expansion) is in QueryRef.tla.        *)
 (***************************************************************************)
-EXTENDS Path
+EXTENDS Schema
 
 IsOp(k) == Str[k].op
 
@@ -47,18 +47,6 @@ MatchIn(doc, p, v) ==
                   ELSE IF \E i \in 1..Len(v.a) : Cmp(field, v.a[i]) = 0 THEN "T" ELSE "F"
   IN Unwind(doc, p, TRUE, FALSE, f)
 
-(* ---- numbers as integers (int64 domain restricted to what TLC can hold) ---- *)
-(* truncation toward zero of a finite number with |value| < 10^9; ok = FALSE otherwise *)
-TruncInt(v) ==
-  IF v.t # "num" \/ v.sp # "fin" THEN [ok |-> FALSE, n |-> 0]
-  ELSE IF v.d = <<>> \/ v.e <= 0 THEN [ok |-> TRUE, n |-> 0]
-  ELSE IF v.e > 9 THEN [ok |-> FALSE, n |-> 0]
-  ELSE LET m == IF Len(v.d) >= v.e THEN DigitsVal(SubSeq(v.d, 1, v.e))
-                ELSE DigitsVal(v.d) * Pow10(v.e - Len(v.d))
-       IN [ok |-> TRUE, n |-> IF v.neg THEN -m ELSE m]
-IsIntegral(v) == v.t = "num" /\ v.sp = "fin" /\ (v.d = <<>> \/ Len(v.d) <= v.e)
-InModelRange(v) == v.t = "num" /\ v.sp = "fin" /\ v.e <= 9
-
 Abs(n) == IF n < 0 THEN -n ELSE n
 (* Go's % : truncated division, sign of the dividend *)
 GoRem(n, d) == LET r == Abs(n) % Abs(d) IN IF n < 0 THEN -r ELSE r
@@ -75,27 +63,6 @@ MatchExists(doc, p, v) ==
   IN IF Truthy(v) = found THEN "T" ELSE "F"
 
 (* ---- $type ---- *)
-TypeCode(v) ==
-  CASE v.t = "num" /\ v.k = "f64" -> 1
-    [] v.t = "str"   -> 2
-    [] v.t = "doc"   -> 3
-    [] v.t = "arr"   -> 4
-    [] v.t = "bin"   -> 5
-    [] v.t = "oid"   -> 7
-    [] v.t = "bool"  -> 8
-    [] v.t = "date"  -> 9
-    [] v.t = "null"  -> 10
-    [] v.t = "missing" -> 10
-    [] v.t = "regex" -> 11
-    [] v.t = "num" /\ v.k = "i32" -> 16
-    [] v.t = "ts"    -> 17
-    [] v.t = "num" /\ v.k = "i64" -> 18
-    [] v.t = "num" /\ v.k = "dec" -> 19
-AliasCode ==
-  [double |-> 1, string |-> 2, object |-> 3, array |-> 4, binData |-> 5, undefined |-> 6, objectId |-> 7, bool |-> 8,
-   date |-> 9, null |-> 10, regex |-> 11, dbPointer |-> 12, javascript |-> 13, symbol |-> 14, javascriptWithScope |-> 15,
-   int |-> 16, timestamp |-> 17, long |-> 18, decimal |-> 19, minKey |-> 255, maxKey |-> 127]
-KnownCodes == {AliasCode[a] : a \in DOMAIN AliasCode}
 (* [ok, number (the "number" alias), code] *)
 ResolveType(o) ==
   IF o.t = "str" THEN
@@ -260,7 +227,8 @@ ExprOps(doc, p, exps) ==
 ProcExpr(doc, prefix, pair, root) ==
   LET key == pair[1]  val == pair[2] IN
   IF IsOp(key)
-    THEN IF root THEN (IF key \in {"$and", "$or", "$nor"} THEN MatchLogic(doc, key, val) ELSE "E")
+    THEN IF root THEN (IF key \in {"$and", "$or", "$nor"} THEN MatchLogic(doc, key, val)
+                       ELSE IF key = "$jsonSchema" THEN MatchSchema(doc, val) ELSE "E")
          ELSE ApplyOp(doc, key, prefix, val)
   ELSE LET p == prefix \o PathOf(key) IN
        IF val.t = "doc" /\ val.f # <<>> /\ IsOp(val.f[1][1])
